@@ -72,6 +72,9 @@ def run(pid, ctx, repo=None):
             except facts.AnalysisBroken as e:
                 fired = True
                 rep = [{'analysis_broken': str(e)[:300]}]
+            except Exception as e:          # noqa: BLE001  (a rule raising on a changed tree: reported, never a crash of the whole check)
+                fired = True
+                rep = [{'analysis_broken': 'internal: %s: %s' % (type(e).__name__, str(e)[:200])}]
             results.append({'patch': name, 'status': 'caught' if fired else 'missed', 'expect': expect, 'reports': rep, 'note': note[:200]})
         finally:
             shutil.rmtree(d, ignore_errors=True)
@@ -84,16 +87,25 @@ def gm_control(pid, ctx, n=24, repo=None):
     of the functions this check analysed, one per scratch copy; the check must stay silent on every one of them."""
     from . import gmctl
     repo = repo or facts.REPO
-    gmctl.ensure()
-    mod = importlib.import_module('sa.props.' + pid)
-    base = baseline_keys(ctx)
-    seed = int(os.environ.get('VERIF_SEED', '0') or 0) * 1000 + int(pid[1:])
-    sites = gmctl.sample_for(sorted(ctx.functions), repo, n, seed)
     results = []
+    # The control is advisory (it measures the rules' tolerance on sampled rewrites, it does not judge the tree): nothing that goes
+    # wrong inside it - the generator failing to build or run, a rule raising on a rewritten tree - may change the verdict of the check.
+    try:
+        gmctl.ensure()
+        mod = importlib.import_module('sa.props.' + pid)
+        base = baseline_keys(ctx)
+        seed = int(os.environ.get('VERIF_SEED', '0') or 0) * 1000 + int(pid[1:])
+        sites = gmctl.sample_for(sorted(ctx.functions), repo, n, seed)
+    except Exception as e:          # noqa: BLE001
+        ctx.extra['robustness_control_error'] = '%s: %s' % (type(e).__name__, str(e)[:300])
+        return results
     work = tempfile.mkdtemp(prefix='gdstk-gm.')
     try:
         for i, site in enumerate(sites):
-            pd = gmctl.make_patch(site, repo, work, i)
+            try:
+                pd = gmctl.make_patch(site, repo, work, i)
+            except Exception:               # noqa: BLE001
+                pd = None
             if pd is None:
                 continue
             d = tempfile.mkdtemp(prefix='gdstk-selftest.')
@@ -117,6 +129,9 @@ def gm_control(pid, ctx, n=24, repo=None):
                         continue            # the rewrite does not compile in some configuration: not a variant
                     fired = True
                     rep = [{'analysis_broken': str(e)[:300]}]
+                except Exception as e:      # noqa: BLE001  (a rule that raises on a rewritten tree is reported like an alarm, advisory)
+                    fired = True
+                    rep = [{'analysis_broken': 'internal: %s: %s' % (type(e).__name__, str(e)[:200])}]
                 results.append({'patch': name, 'status': 'caught' if fired else 'missed', 'expect': 'silent', 'reports': rep, 'note': 'synthetic behaviour-preserving rewrite'})
             finally:
                 shutil.rmtree(d, ignore_errors=True)
